@@ -15,7 +15,14 @@ go test -vet=off -count=1 -timeout 15m -run 'Seed' ./$pkgdir > /tmp/seedverify/d
 rm -f $pkgdir/zz_seed_demo_test.go
 existing=0
 for p in "$@"; do
-  go test -vet=off -count=1 -timeout 25m $p > /tmp/seedverify/exist.$$ 2>&1 || { existing=1; grep -E "^(--- FAIL|FAIL|panic)" /tmp/seedverify/exist.$$ | head -5; }
+  # the consensus package has known timing-flaky tests (TestByzantinePrevoteEquivocation, TestStateFullRound1 can
+  # hang): a failing package gets up to two more attempts before it counts as failing with the change
+  ok=1
+  for attempt in 1 2 3; do
+    if go test -vet=off -count=1 -timeout 6m $p > /tmp/seedverify/exist.$$ 2>&1; then ok=0; break; fi
+    grep -E "^(--- FAIL|FAIL|panic)" /tmp/seedverify/exist.$$ | head -3 | sed "s/^/  attempt $attempt: /"
+  done
+  [ $ok -ne 0 ] && existing=1
 done
 git checkout -q -- . && git clean -fdq
 cp $demo $pkgdir/zz_seed_demo_test.go
